@@ -3,7 +3,7 @@
    Proofs/ApiProofs.v (operations) and Proofs/OldCodeProofs.v (the repaired defects). *)
 From Coq Require Import List ZArith NArith Bool Arith.
 From IE Require Import Gen.UndoGen Model.Undo Model.EditModel Model.EditOps Proofs.UndoProofs Proofs.LayerProofs Proofs.EditProofs
-  Proofs.ApiProofs Proofs.OldCodeProofs Model.DocModel Model.DocOps Proofs.DocProofs Proofs.DocApiProofs Proofs.DocRowColProofs.
+  Proofs.ApiProofs Proofs.OldCodeProofs Model.DocModel Model.DocOps Model.ScrollOps Proofs.DocProofs Proofs.DocApiProofs Proofs.DocRowColProofs Proofs.ScrollProofs.
 Import ListNotations.
 
 (* ================================================================================================================
@@ -253,8 +253,8 @@ Qed.
    set_ansi_font / set_sauce_font, add_ansi_font, replace_font_usage, change_font_slot, remove_font, set_ice_mode, set_palette_mode
    (for ANY cell conversion / palette plan), merge_layer_down, anchor_layer, stamp_layer_down, paste_clipboard_data,
    add_selection_to_mask, inverse_selection, enumerate_selections (ANY callback), clear_selection, erase_selection and the nine
-   row / column wrappers reading the selection mask, rotate_layer (ANY character table), scroll_area_up / down over the whole
-   layer width, insert / delete row and column — is a sound edit whenever it is applied OUTSIDE its known class K (a predicate on the state it is applied to).
+   row / column wrappers reading the selection mask, rotate_layer (ANY character table), scroll_area_up / down (over the whole
+   layer width and over part of it), insert / delete row and column — is a sound edit whenever it is applied OUTSIDE its known class K (a predicate on the state it is applied to).
    Since the fix commits for the four font / SAUCE findings EVERY constructor of xmodelled carries K = `never` (= fun _ => False):
    the premise ~ K (cur e) is trivially true (x_api_sound_everywhere) *)
 Theorem x_api_sound : forall f K, xmodelled f K ->
@@ -317,6 +317,19 @@ Theorem rowcol_before_fix_refuted :
     old_delete_row_undo 0 2 [] t = Panic 40 /\
     (exists o2 a', xop_undo (XDeleteRow 0 2 []) t = Ok (o2, a') /\ xeqv a' a).
 Proof. exact rowcol_before_fix_refuted_proof. Qed.
+
+(* scroll_area_up / scroll_area_down over part of the layer width (finding C08-scroll-area-raw-lines, repaired): the row surgery changes
+   cells of the area only, so the UndoLayerChange snapshot frame around it is a sound edit; lifted into the full document it is the
+   partial-width branch of x_scroll_area_ud, a constructor of xmodelled *)
+Theorem scroll_area_ud_sound : forall up, sound_edit op_undo op_redo eqv (area_body (mut_scroll_ud up)).
+Proof. exact area_body_scroll_ud_sound. Qed.
+
+(* before the fix commit a one-row area was drained and never filled again: the cells right of the area moved left, outside the recorded
+   snapshot (here: columns 1..1 of a four-cell row; the cell in column 2 changes); the repaired surgery leaves a one-row area as it is *)
+Theorem scroll_area_before_fix_refuted :
+  let row := [cA; cQ; cA; cQ] in
+  snd (drain_row 1 2 row) = [cA; cA; cQ] /\ scroll_ud_rows true 1 2 [row] = [row] /\ scroll_ud_rows false 1 2 [row] = [row].
+Proof. repeat split; vm_compute; reflexivity. Qed.
 
 (* Non-vacuity: a history over the full document (palette switch, set_char, paste, merge down, resize with layers, add font,
    ice mode) satisfies the premises of x_undo_redo_history and changes palette, layers, size, font table and mode *)
